@@ -153,10 +153,11 @@ Lemma disconnect_general : forall s,
   /\ (c_reset_on_disconnect (s_cfg s) = true -> s_snd s' = 1 /\ s_tgt s' = 1).
 Proof.
   intros s Hb Hc.
+  unfold step, step_event. change (s_st (clear_logs s)) with (s_st s). rewrite Hc.
+  unfold set_state, set_state_with. cbn [is_connected negb]. change (s_st (clear_logs s)) with (s_st s). rewrite Hc.
+  rewrite (hd_no_buffer (clear_logs s) Hb). unfold disconnect_now.
   destruct s as [c st snd tgt msgs q oo io ib sr hb ps stp cbs w cl]. cbn in Hb, Hc. subst ib.
-  crush_cfg c. cbn [s_cfg c_reset_on_disconnect].
-  unfold step, clear_logs, step_event, set_state, set_state_with, handle_disconnect_state.
-  cbn [s_st upd_chan upd_logs is_connected negb]. rewrite Hc. cbn [negb is_connected].
+  crush_cfg c. cbn [s_cfg c_reset_on_disconnect clear_logs upd_chan upd_logs s_st].
   split; intros ->;
     destruct (is_logged_on st || match st with SLogout => true | SLogon => initiator _ | _ => false end), oo, io, ps; cbn; repeat split; reflexivity.
 Qed.
@@ -204,10 +205,11 @@ Proof. intros (_ & _ & _ & H & _) Hc. unfold CfgIs in *. congruence. Qed.
 
 Lemma hd_cfg dr s : (forall x, CfgIs x -> CfgIs (dr x)) -> CfgIs s -> CfgIs (handle_disconnect_state dr s).
 Proof.
-  intros Hdr Hs. unfold handle_disconnect_state, CfgIs. cbn [s_cfg upd_chan].
-  apply Hdr. unfold CfgIs.
-  repeat match goal with |- s_cfg (if ?x then _ else _) = _ => destruct x end; cbn; try exact Hs;
-    try (apply (cfg_same s); [fr_go | exact Hs]).
+  intros Hdr Hs. rewrite hd_unfold. pose proof (Hdr s Hs) as H0.
+  destruct (is_connected (s_st s) && negb (is_connected (s_st (dr s)))); [exact H0|].
+  unfold disconnect_now, CfgIs. cbn [s_cfg upd_chan].
+  repeat match goal with |- s_cfg (if ?x then _ else _) = _ => destruct x end; cbn; try exact H0;
+    try (apply (cfg_same (dr s)); [fr_go | exact H0]).
 Qed.
 
 Lemma set_state_cfg dr s next : (forall x, CfgIs x -> CfgIs (dr x)) -> CfgIs s -> CfgIs (set_state_with dr s next).
